@@ -21,6 +21,8 @@ def main(target, args, seed):
         return sensitivity(args, seed)
     if target == "selftest-determinism":
         return determinism(args, seed)
+    if target == "selftest-stub-conformance":
+        return stub_conformance(args, seed)
     print("unknown selftest", target)
     return 2
 
@@ -118,3 +120,54 @@ def determinism(args, seed):
         json.dump({"pairs": total, "differing": diffs}, f)
     print(f"determinism: {total} (family, seed) pairs executed twice, {diffs} differ")
     return 0 if diffs == 0 else 1
+
+
+def stub_conformance(args, seed):
+    """A handful of scenarios once against REAL multiprocessing and once against the fakes: results and aggregated
+    statistics must agree (not a deciding check: it validates the stub, DESIGN.md 2.4)."""
+    sys.path.insert(0, ROOT)
+    from collections import Counter
+
+    from sim import gen, mpsim, nucsio
+    from sim.kernel import Choices
+    from sim.families.e2_mp import new_parent
+
+    import nucs.solvers.multiprocessing_solver as M
+
+    bad = 0
+    n = 0
+    for i in range(args.runs or 12):
+        ch = Choices(seed=1000 + i)
+        model = gen.gen_model(ch, {"gcc_zero_cap": False, "max_space": 600, "max_props": 2})
+        k = 1 + ch.choose(4, "k")
+        var = ch.choose(len(model["idx"]), "var")
+        op = ["solve", "minimize", "maximize"][ch.choose(3, "op")]
+        obj = ch.choose(len(model["idx"]), "obj")
+
+        def make():
+            p = nucsio.build_problem(model)
+            return [nucsio.build_solver(sp, gen.DEFAULT_CONFIG) for sp in p.split(k, var)]
+
+        def call(parent):
+            if op == "solve":
+                return sorted(tuple(int(x) for x in s) for s in parent.solve())
+            r = parent.minimize(obj) if op == "minimize" else parent.maximize(obj)
+            return None if r is None else int(r[obj])
+
+        real_parent = new_parent(make())
+        real = call(real_parent)
+        real_stats = real_parent.get_statistics()
+        world = mpsim.World(ch, {"template": "jitter", "faults": {}, "start": {}, "late_pickle": True, "opcost": 1},
+                            lambda stream, clone, method, a, kw: getattr(clone, method)(*a, **kw), {})
+        sim_parent = new_parent(make())
+        with mpsim.patched(world):
+            simr = call(sim_parent)
+        sim_stats = sim_parent.get_statistics()
+        n += 1
+        if real != simr or real_stats != sim_stats:
+            bad += 1
+            print(f"stub conformance DIFFERS on {gen.render_model(model)} split({k},{var}) {op}: real {str(real)[:200]} {real_stats} / sim {str(simr)[:200]} {sim_stats}")
+    print(f"stub conformance: {n} scenarios run against real multiprocessing and against the fakes, {bad} differ")
+    with open(os.path.join(ROOT, "evidence", "selftest-stub-conformance.json"), "w") as f:
+        json.dump({"scenarios": n, "differing": bad}, f)
+    return 0 if bad == 0 else 1
